@@ -92,7 +92,13 @@ MATRIX_BASE = 10 ** 7
 
 def _summ(prop, seed, run, want_case=False):
     from sim import execu
-    case = gen_case(prop, seed, run)
+    try:
+        case = gen_case(prop, seed, run)
+    except Exception as e:   # noqa: generator failure is a harness error
+        import traceback
+        return {'run': run, 'harness_error': 'generator %s: %s' %
+                (type(e).__name__, e), 'tb': traceback.format_exc(limit=10),
+                'case_digest': None}
     cd = case_digest(case)
     t0 = time.time()
     try:
@@ -362,7 +368,7 @@ def check(prop, tier, seed):
         # known-finding classification is per violation: every instance must
         # be explained by the finding, otherwise it is reported
         novel = []
-        for v, src in items:
+        for v, src in items[:400]:
             case = None
             if 'run' in src and not src.get('hashseed'):
                 case = gen_case(prop, seed, src['run'])
@@ -376,9 +382,6 @@ def check(prop, tier, seed):
                 known_hits[kid] += 1
             else:
                 novel.append((v, src, case))
-            if len(novel) >= 1 and len(known_hits) == 0:
-                break
-            if len(novel) >= 3:
                 break
         if not novel:
             continue
